@@ -16,6 +16,7 @@ package scanner
 
 import (
 	"container/list"
+	"sync"
 	"time"
 )
 
@@ -25,6 +26,9 @@ type compactRecord struct {
 }
 
 type compactRecordQueue struct {
+	// mu makes the queue usable by compactions that run at the same time (push) and by their expiry look-ups,
+	// which hold it over a whole head/pop sequence
+	mu   sync.Mutex
 	list *list.List
 }
 
@@ -35,6 +39,8 @@ func newCompactRecordQueue() *compactRecordQueue {
 }
 
 func (c *compactRecordQueue) push(cr *compactRecord) {
+	c.mu.Lock()
+	defer c.mu.Unlock()
 	c.list.PushBack(cr)
 }
 
